@@ -197,10 +197,35 @@ def subAll : List Num → Except Err Num
   | [] => .error (.panic "sub: no argument")
   | [x] => sub (.int 0) x
   | x :: y :: rest => do let i ← sub x y; rest.foldlM sub i
-def divAll : List Num → Except Err Num
+/-- the plain left fold of `div` -/
+def divFold : List Num → Except Err Num
   | [] => .error (.panic "div: no argument")
   | [x] => div (.int 1) x
   | x :: y :: rest => do let i ← div x y; rest.foldlM div i
+
+/-- `!matches!(x, Number::Real(_))` -/
+def notReal : Num → Bool
+  | .real _ => false
+  | _ => true
+
+/-- an exact zero as a divisor: `Number::Integer(0) | Number::Rational(0, _)` -/
+def isExactZero : Num → Bool
+  | .int 0 => true
+  | .rat 0 _ => true
+  | _ => false
+
+/-- the divisors `div` meets while every operand so far is exact (`exact_so_far`): of the longest prefix of exact
+operands, all but the first - or the single operand of the one-argument form -/
+def exactDivisors (xs : List Num) : List Num :=
+  match xs with
+  | [x] => if x.notReal then [x] else []
+  | _ => (xs.takeWhile notReal).drop 1
+
+/-- `div`: the left fold of `/`; while every operand so far is exact, an exact zero divisor is an error even when the
+running quotient has left the exact range and is carried on as a real (an error met earlier in that prefix is a
+division by zero as well, so the outcome is the same error) -/
+def divAll (xs : List Num) : Except Err Num :=
+  if (exactDivisors xs).any isExactZero then .error .divZero else divFold xs
 
 /-- `typed_comparision!`: true for no or one argument, otherwise false at the first adjacent pair
 that fails. -/
